@@ -462,7 +462,15 @@ func (ig *ingest) roundRules(e *Effect) {
 				extra = append(extra, PPAtom(f))
 			}
 		}
-		ev.Verdict("U1.exact", props("C14"), "the sync accept test is exactly height(block) >= current height (an equal height is accepted)", "", len(extra) == 0, "stronger test on the accept path: "+strings.Join(extra, ", "))
+		// ... and the decision does not look at the view at all (a node that went through elections at this height
+		// must still accept the block of its own height)
+		for _, ct := range e.PathConds() {
+			if u := unsnap(ct); u.ContainsKey(k.SView.Key()) {
+				extra = append(extra, "depends on the current view: "+PP(u))
+			}
+		}
+		extra = dedupSorted(extra)
+		ev.Verdict("U1.exact", props("C14"), "the sync accept test is exactly height(block) >= current height (an equal height is accepted, whatever the current view)", "", len(extra) == 0, "stronger test on the accept path: "+strings.Join(extra, ", "))
 	case e.Kind == "call" && e.Name == "interfaces.RequestNewBlockProposal" && e.Entry == idE4 && pathHas(e, "NewTermInCommittee"):
 		// U3: on the sync path (canBeFirstLeader = false) a view-0 proposal is requested only at height <= 1
 		ev := a.NewEval(e, ig.r)
@@ -592,7 +600,7 @@ func runLoops(a *Analyzer, r *Results) {
 			trig := ev.Arg(0)
 			hv := Field(trig, "Hv")
 			target := Struct("state.HeightView", []string{"height", "view"}, []*Term{Field(hv, "height"), Bin("+", Field(hv, "view"), Const("1"))})
-			ev.Require("K9.election", props("C15", "C14"), "on an election trigger for (h,v) the main loop cancels everything older than (h,v+1) before forwarding, and forwards only if (h,v+1) is still issuable", "",
+			ev.Require("K9.election", props("C15", "C14", "C19"), "on an election trigger for (h,v) the main loop cancels everything older than (h,v+1) before forwarding, and forwards only if (h,v+1) is still issuable", "",
 				Done(Call("state.CancelOlderThan", vc, target)), ErrNil(Ext(1, Call("state.For", vc, target))))
 			// K9.exact: whether a trigger is forwarded depends on its (height, view) only through the registry's own
 			// staleness test: no other comparison of the trigger's position drops it
@@ -795,6 +803,9 @@ func runShutdown(a *Analyzer, r *Results) {
 							if _, isRet := i2.(*ssa.Return); isRet {
 								return false
 							}
+							if _, isPanic := i2.(*ssa.Panic); isPanic {
+								return true // does not return normally (e.g. the synthetic "select matched no case")
+							}
 						}
 						// "no current term" needs no disposal: the edge on which the term pointer is nil is exempt
 						skip := -1
@@ -824,6 +835,15 @@ func runShutdown(a *Analyzer, r *Results) {
 						return len(b.Succs) > 0
 					}
 					okStop = walk(armBlk)
+					// Z2.all: the same from every arm: whatever event makes the worker leave its loop, the term is disposed first
+					seenB = map[*ssa.BasicBlock]bool{}
+					okAll := true
+					for _, sx := range sel.Block().Succs {
+						if !seenB[sx] && !walk(sx) {
+							okAll = false
+						}
+					}
+					r.Check("Z2.all", props("C16"), "whichever arm of the worker's select leads out of the loop, the current term is disposed (election timer stopped) before the worker returns: no fast path leaves the loop with the timer armed", shortName(fn), a.P.InstrPos(in), okAll, "an arm of the worker's select can return without reaching ElectionScheduler.Stop", "P")
 					r.Check("Z2", props("C16"), "on shutdown the worker disposes the current term, which stops the election timer, before returning", shortName(fn), a.P.InstrPos(in), okStop, "a path from the ctx.Done arm returns without reaching ElectionScheduler.Stop", "P")
 				}
 			}
